@@ -44,6 +44,7 @@ pub fn expand_position(
         .unwrap_or_else(|| info.clone());
 
     // increase position
+    let mut previous_amount = Uint128::zero();
     OPEN_POSITIONS.update::<_, ContractError>(
         deps.storage,
         receiver.sender.clone(),
@@ -56,6 +57,7 @@ pub fn expand_position(
                 .find(|position| position.unbonding_duration == unbonding_duration)
                 .ok_or(ContractError::NonExistentPosition { unbonding_duration })?;
 
+            previous_amount = pos.amount;
             pos.amount += amount;
 
             Ok(positions)
@@ -63,7 +65,10 @@ pub fn expand_position(
     )?;
 
     // add the weight to the global weight and the user's weight
-    let weight = calculate_weight(unbonding_duration, amount)?;
+    // the weight is not additive on the amount, so add the difference between the weight of the
+    // expanded position and the weight of the position before, which is what closing subtracts
+    let weight = calculate_weight(unbonding_duration, previous_amount.checked_add(amount)?)?
+        .checked_sub(calculate_weight(unbonding_duration, previous_amount)?)?;
     GLOBAL_WEIGHT.update::<_, StdError>(deps.storage, |global_weight| {
         Ok(global_weight.checked_add(weight)?)
     })?;
